@@ -104,6 +104,66 @@ func loadRepo(repo, verifDir string, overlay map[string][]byte, extraPatterns ..
 			eng.structTags = append(eng.structTags, tg)
 		}
 	}
+	// ... and for every type that occurs in the SSA of hc's functions (values, allocations, conversions), with the slice
+	// and pointer types built from them, in sorted order: tags handed out lazily during translation would depend on the
+	// scheduling of the parallel translations
+	{
+		seenTy := map[string]types.Type{}
+		note := func(ty types.Type) {
+			if ty == nil {
+				return
+			}
+			switch ty.(type) {
+			case *types.Basic, *types.Named, *types.Pointer, *types.Slice, *types.Array, *types.Map, *types.Chan, *types.Struct, *types.Signature, *types.Interface, *types.Alias:
+			default:
+				return // tuples, go/ssa's internal pseudo types (range iterators, ...)
+			}
+			seenTy[typeKey(ty)] = ty
+			switch u := ty.Underlying().(type) {
+			case *types.Slice:
+				st := types.NewSlice(u.Elem())
+				seenTy[typeKey(st)] = st
+				seenTy[typeKey(u.Elem())] = u.Elem()
+			case *types.Pointer:
+				seenTy[typeKey(u.Elem())] = u.Elem()
+			case *types.Array:
+				st := types.NewSlice(u.Elem())
+				seenTy[typeKey(st)] = st
+			}
+		}
+		for _, fn := range eng.byName {
+			if fn.Pkg == nil || !strings.HasPrefix(fn.Pkg.Pkg.Path(), hcPath) {
+				continue
+			}
+			if fn.TypeParams().Len() > 0 && len(fn.TypeArgs()) == 0 {
+				continue // generic body: its types mention type parameters
+			}
+			for _, p := range fn.Params {
+				note(p.Type())
+			}
+			for _, b := range fn.Blocks {
+				for _, ins := range b.Instrs {
+					if v, ok := ins.(ssa.Value); ok {
+						note(v.Type())
+					}
+					switch x := ins.(type) {
+					case *ssa.MakeInterface:
+						note(x.X.Type())
+					case *ssa.TypeAssert:
+						note(x.AssertedType)
+					}
+				}
+			}
+		}
+		var keys []string
+		for k := range seenTy {
+			keys = append(keys, k)
+		}
+		sort.Strings(keys)
+		for _, k := range keys {
+			eng.tag(seenTy[k])
+		}
+	}
 	// syntax index + contract files
 	packages.Visit(pkgs, nil, func(p *packages.Package) {
 		for i, f := range p.Syntax {
